@@ -109,17 +109,32 @@ def check_run(rec, phase, h, labels_before, items, stats):
         stats['failed_before_evolving'] = stats.get(
             'failed_before_evolving', 0) + 1
     # (c) pairing + payload
+    # A closing signal is matched with the oldest open signal of its kind
+    # that names the same app / migration (the models of several apps are
+    # announced up-front and confirmed afterwards, in the same order).
     open_ = []
+    overlapped = set()
     for e in evs:
         if e['k'] == 'signal' and e['name'] in PAIRS:
+            if open_:
+                kinds = sorted(set([o['name'] for o in open_] + [e['name']]))
+                if tuple(kinds) not in overlapped:
+                    overlapped.add(tuple(kinds))
+                    items.append(dict(
+                        ctx, type='OVERLAPPING_PAIRS', names=kinds,
+                        all_creating_models=kinds == ['creating_models']))
             open_.append(e)
         elif e['k'] == 'signal' and e['name'] in PAIRS.values():
             stats['pairs_checked'] = stats.get('pairs_checked', 0) + 1
-            if not open_ or PAIRS[open_[-1]['name']] != e['name']:
+            cands = [o for o in open_ if PAIRS[o['name']] == e['name']]
+            same = [o for o in cands
+                    if all(o.get(f) == e.get(f) for f in ('app', 'migration'))]
+            if not cands:
                 items.append(dict(ctx, type='APPLIED_WITHOUT_APPLYING',
                                   name=e['name']))
             else:
-                o = open_.pop()
+                o = (same or cands)[0]
+                open_.remove(o)
                 for f in ('evolutions', 'app', 'migration', 'model_names'):
                     if o.get(f) != e.get(f):
                         items.append(dict(ctx, type='PAIR_PAYLOAD_DIFFERS',
@@ -129,7 +144,10 @@ def check_run(rec, phase, h, labels_before, items, stats):
                           names=[o['name'] for o in open_]))
     if len(open_) > 1:
         items.append(dict(ctx, type='NESTED_OPEN_PAIRS',
-                          names=[o['name'] for o in open_]))
+                          names=[o['name'] for o in open_],
+                          all_creating_models=all(
+                              o['name'] == 'creating_models'
+                              for o in open_)))
     # (d) every statement of the evolution SQL lies inside a pair whose app
     #     owns the table
     cur = None
@@ -176,15 +194,19 @@ def check_run(rec, phase, h, labels_before, items, stats):
     #      tables are created between them
     cur = None
     made = []
+    opens = {}
     for e in evs:
         if e['k'] == 'signal' and e['name'] == 'creating_models':
-            cur, made = e, []
-        elif e['k'] == 'sql' and cur is not None and e['ok']:
+            if not opens:
+                made = []
+            opens[e.get('app')] = e
+        elif e['k'] == 'sql' and opens and e['ok']:
             m = re.match(r'\s*CREATE TABLE "([^"]+)"', e['sql'])
             if m and m.group(1) != 'TEMP_TABLE':
                 made.append(m.group(1))
         elif e['k'] == 'signal' and e['name'] == 'created_models' and \
-                cur is not None:
+                e.get('app') in opens:
+            cur = opens.pop(e.get('app'))
             app = cur.get('app')
             names = cur.get('model_names') or []
             if app in h.specs[-1] and hasattr(h, 'steps') and \
@@ -295,6 +317,9 @@ def run_split(desc):
     from . import c09_pipeline as P
     rng = seqcase.rng_for('C17s', desc['seed'], desc['i'])
     g = P.gen_mig_cross(rng) if desc['i'] % 3 == 2 else P.gen_mig(rng)
+    # (every evolution adds its column here: an evolution without SQL
+    # cannot be matched against the statements between the signals)
+    g['empty_last'] = {}
     key = S.canon(['split', desc['seed'], desc['i']])
     proj = projlab.Project()
     items, stats = [], {'split_projects': 1}
